@@ -45,7 +45,7 @@ RULE = ("per seeded base scenario: exhaustive enumeration of abort poll indices,
 COMPONENTS = common.REAL_COMPONENTS
 ASSUMPTIONS = ["fault points are enumerated completely per base scenario; base scenarios are sampled",
                "GeneratorExit and a CancelledError raised inside a *sync* call are not in C13's statement (C08 covers settling)"]
-BUDGETS = {"quick": (1500, 60), "thorough": (120000, 290)}
+BUDGETS = {"quick": (4500, 90), "thorough": (300000, 285)}
 SHRINK_CAP = 200
 CANCELS = ["KeyboardInterrupt", "SystemExit", "CancelledError"]
 FORBIDDEN_AFTER_ABORT = ("OP_BEGIN", "SLEEP_BEGIN", "HANDLER", "BEFORE_SLEEP")
